@@ -33,6 +33,7 @@ Definition local_okb (v : pyval) : bool :=
   | VList _ _ | VTuple _ _ | VSet _ _ | VFrozenset _ _ => true
   | VDict _ kvs => forallb keyatomb (map fst kvs)
   | VObj _ c _ => obj_cls c
+  | VNd _ c dt _ _ => nd_cls c && nocolon dt
   | _ => false
   end.
 Fixpoint inj_domb (f : nat) (v : pyval) : bool :=
@@ -46,6 +47,7 @@ Proof.
   destruct v; cbn; try discriminate; auto.
   - apply Nat.eqb_eq.
   - intros E. rewrite Forall_forall. intros k Hk. apply keyatomb_sound. rewrite forallb_forall in E. auto.
+  - intros E. now apply andb_true_iff in E.
 Qed.
 
 Lemma inj_domb_sound : forall f v, inj_domb f v = true -> inj_dom v.
